@@ -83,7 +83,7 @@ EXPORT errno_t _strtouppercase_s_chk(char *dest, rsize_t dmax,
         CHK_DEST_OVR("strtouppercase_s", destbos)
     }
 
-    while (*dest && dmax) {
+    while (dmax && *dest) {
 
         if ((*dest >= 'a') && (*dest <= 'z')) {
             *dest = (char)(*dest - 32);
